@@ -7,6 +7,7 @@ import re
 import time
 from concurrent.futures import ThreadPoolExecutor
 
+import fam_maint
 import vlib
 from vlib import log
 
@@ -417,6 +418,10 @@ def stage1(tier, v, cov):
         cov["mc_runs"].append(dict(run=name, distinct=r.distinct, generated=r.generated, depth=r.depth, wall_s=round(r.wall, 1)))
 
 
+def maint_claim(prop):
+    return lambda kind, what: prop if kind in ("Hang", "Leak", "Wedged") else None
+
+
 def new_cov():
     return dict(mc_runs=[], vacuity_guards=[], samples=[], traces_validated_against_impl=0, states=0, transitions=0, evaluations=0,
                 events_validated=0, deviations_without_property_violation=0, query_scripts_run=0, query_scripts_diverged=0,
@@ -433,7 +438,9 @@ def run(prop, tier, seed, replay=None):
         meta = json.load(open(os.path.join(replay, "meta.json")))
         start = meta.get("start", {})
         rseed = start.get("seed", seed)
-        if meta.get("kind") == "owner":
+        if meta.get("maint"):
+            fam_maint.run_jobs(tier, seed, v, cov, maint_claim(prop), jobs=[(meta["seed"], meta["n"], meta["k"])])
+        elif meta.get("kind") == "owner":
             run_owner_part(prop, tier, rseed, v, cov, binary, wd, only=start.get("name"))
         else:
             scripts = [dict(cfg=dict(n=start["n"], budget=start["budget"], bwait=start["bwait"]), hist=start["hist"].split(),
@@ -456,6 +463,10 @@ def run(prop, tier, seed, replay=None):
             for k in range(1, 4):   # the concretisation (API, addresses, reply kind, node kinds) depends on the seed
                 run_query_part(prop, tier, seed * 100 + k, v, cov, binary, wd, scripts)
                 run_owner_part(prop, tier, seed * 100 + k, v, cov, binary, wd)
+            # the table maintainer against its own specification (Maintainer.tla, DESIGN 11.7): a routine that does not
+            # return after Close, or goroutines of a pass that outlive it, fall under this property
+            fam_maint.model(tier, v, cov)
+            cov["traces_validated_against_impl"] += fam_maint.run_jobs(tier, seed, v, cov, maint_claim(prop))
     rc = v.finish()
     cov.update(distinct_nontrivial=cov["traces_validated_against_impl"], exhaustive=False,
                rule="query part: every finished behaviour of the gate-normal generator model (TLC; placements of reply, cancellation, "
